@@ -13,6 +13,15 @@ _identity = np.eye(4)
 _identity.flags["WRITEABLE"] = False
 
 
+def _is_similarity(matrix) -> bool:
+    """
+    Is the upper 3x3 of a homogeneous matrix a rotation times
+    a single scale factor as far as floating point can tell.
+    """
+    gram = np.dot(matrix[:3, :3], matrix[:3, :3].T)
+    return bool(np.abs(gram - np.eye(3) * gram[0, 0]).max() <= 1e-12 * np.abs(gram).max())
+
+
 class SceneGraph:
     """
     Hold data about positions and instances of geometry
@@ -192,8 +201,9 @@ class SceneGraph:
                 # multiply matrices into single transform
                 matrix = util.multi_dot(matrices)
 
-        # if instructed to repair rigid transforms do it here
-        if self.repair_rigid is not None:
+        # if instructed to repair rigid transforms do it here: a uniformly
+        # scaled rotation is a similarity the user asked for, not damage
+        if self.repair_rigid is not None and not _is_similarity(matrix):
             matrix = fix_rigid(matrix, max_deviance=self.repair_rigid)
 
         # matrix being edited in-place leads to subtle bugs
